@@ -112,6 +112,26 @@ static int compare_byte_array(const void* a, size_t a_len,
     return (a_len > b_len) - (a_len < b_len);
 }
 
+/**
+ * Compare two values of a physical type in the order used for min/max
+ * statistics. The lengths matter for the byte array types only.
+ */
+int carquet_statistics_compare_values(
+    carquet_physical_type_t type,
+    const void* a, size_t a_len,
+    const void* b, size_t b_len) {
+
+    switch (type) {
+        case CARQUET_PHYSICAL_BOOLEAN: return compare_boolean(a, b);
+        case CARQUET_PHYSICAL_INT32:   return compare_int32(a, b);
+        case CARQUET_PHYSICAL_INT64:   return compare_int64(a, b);
+        case CARQUET_PHYSICAL_INT96:   return compare_int96(a, b);
+        case CARQUET_PHYSICAL_FLOAT:   return compare_float(a, b);
+        case CARQUET_PHYSICAL_DOUBLE:  return compare_double(a, b);
+        default:                       return compare_byte_array(a, a_len, b, b_len);
+    }
+}
+
 /* ============================================================================
  * Statistics Builder API
  * ============================================================================
